@@ -98,6 +98,7 @@ type Unit struct {
 	slices         map[string]sliceInfo
 	curFrame       *Frame
 	slowQueries    int
+	borrows        []*borrowInfo
 	slowSecs       float64
 }
 
